@@ -242,9 +242,13 @@ impl WriteBackend for Be {
     }
 }
 
+fn new_repo2(cold: &Arc<Be>, hot: Option<&Arc<Be>>) -> Repository<()> {
+    let bes = RepositoryBackends::new(cold.clone(), hot.map(|h| h.clone() as Arc<dyn WriteBackend>));
+    // no cache: every case has a fresh random repository id (one cache directory each otherwise)
+    Repository::new(&RepositoryOptions::default().no_cache(true), &bes).expect("Repository::new")
+}
 fn new_repo(be: &Arc<Be>) -> Repository<()> {
-    let bes = RepositoryBackends::new(be.clone(), None);
-    Repository::new(&RepositoryOptions::default(), &bes).expect("Repository::new")
+    new_repo2(be, None)
 }
 
 fn stored_config(be: &Arc<Be>, key: &MasterKey) -> String {
@@ -255,28 +259,59 @@ fn stored_config(be: &Arc<Be>, key: &MasterKey) -> String {
     }
 }
 
-/// init with the first option record, then `apply_config` with each further one; after every
-/// step the configuration is re-read from the backend by a fresh `open`.
+/// the `config` file of one backend, decrypted and decoded as it is stored (`none` = no file)
+fn raw_config(be: &Arc<Be>, key: &MasterKey) -> String {
+    match catch_unwind(AssertUnwindSafe(|| hook::stored_config(be.clone() as Arc<dyn WriteBackend>, key))) {
+        Err(_) => "decode-panic".to_string(),
+        Ok(Err(e)) => format!("decode-{}", err_class(&e)),
+        Ok(Ok(None)) => "none".to_string(),
+        Ok(Ok(Some(c))) => show_config(&c, true),
+    }
+}
+
+fn open_result(r: std::thread::Result<RusticResult<Repository<rustic_core::OpenStatus>>>) -> String {
+    match r {
+        Err(_) => "open-panic".to_string(),
+        Ok(Err(e)) => format!("open-{}", err_class(&e)),
+        Ok(Ok(r)) => show_config(r.config(), true),
+    }
+}
+
+/// `hot n opts0 .. opts(n-1)`: init (plain repository, or hot/cold with two backends when hot = 1)
+/// with the first option record, then `apply_config` with each further one.  After every step:
+/// repo.config(), BOTH stored config files decoded as stored, the numbers of config writes, and
+/// the config seen by every way of opening the repository (both parts; the cold part alone via
+/// the plain `open`; `open_only_cold`).  At the end a backup through the full repository and
+/// check --read-data on the cold part alone.
 fn repo_case(line: &str) -> String {
     let mut t = Toks::new(line);
+    let hot = t.u() == 1;
     let n = t.u();
     let o0 = read_opts(&mut t);
-    let be = Arc::new(Be::new());
+    let cold = Arc::new(Be::new());
+    let hotbe = Arc::new(Be::new());
+    let hb = if hot { Some(&hotbe) } else { None };
     let key = MasterKey::new();
+    let creds = Credentials::Masterkey(key.clone());
     let mut out = Vec::new();
-    let r = catch_unwind(AssertUnwindSafe(|| {
-        new_repo(&be).init(&Credentials::Masterkey(key.clone()), &KeyOptions::default(), &o0)
-    }));
+    let r = catch_unwind(AssertUnwindSafe(|| new_repo2(&cold, hb).init(&creds, &KeyOptions::default(), &o0)));
     let mut repo = match r {
         Err(_) => return "init:panic".to_string(),
         Ok(Err(e)) => {
             // refused initialisation: nothing may have been written
-            let nfiles = rustic_core::ALL_FILE_TYPES.iter().map(|tpe| be.list(*tpe).map_or(99, |v| v.len())).sum::<usize>() + be.list(FileType::Config).map_or(99, |v| v.len());
-            return format!("init:{} files={nfiles}", err_class(&e));
+            let count = |be: &Arc<Be>| rustic_core::ALL_FILE_TYPES.iter().map(|tpe| be.list(*tpe).map_or(99, |v| v.len())).sum::<usize>() + be.list(FileType::Config).map_or(99, |v| v.len());
+            return format!("init:{} files={}", err_class(&e), count(&cold) + count(&hotbe));
         }
         Ok(Ok(r)) => r,
     };
-    out.push(format!("init:ok {} {} w={}", show_config(repo.config(), true), stored_config(&be, &key), be.writes()));
+    let snapshot = |cls: &str, repo: &Repository<rustic_core::OpenStatus>| {
+        let both = if hot { open_result(catch_unwind(AssertUnwindSafe(|| new_repo2(&cold, hb).open(&creds)))) } else { "na".to_string() };
+        let alone = open_result(catch_unwind(AssertUnwindSafe(|| new_repo2(&cold, None).open(&creds))));
+        let only = if hot { open_result(catch_unwind(AssertUnwindSafe(|| new_repo2(&cold, hb).open_only_cold(&creds)))) } else { "na".to_string() };
+        format!("{cls} {} {} {} w={},{} {both} {alone} {only}", show_config(repo.config(), true), raw_config(&cold, &key),
+                if hot { raw_config(&hotbe, &key) } else { "none".to_string() }, cold.writes(), hotbe.writes())
+    };
+    out.push(snapshot("init:ok", &repo));
     for _ in 1..n {
         let oi = read_opts(&mut t);
         let r = catch_unwind(AssertUnwindSafe(|| repo.apply_config(&oi)));
@@ -286,8 +321,37 @@ fn repo_case(line: &str) -> String {
             Ok(Ok(false)) => "same".to_string(),
             Ok(Err(e)) => err_class(&e),
         };
-        out.push(format!("{cls} {} {} w={}", show_config(repo.config(), true), stored_config(&be, &key), be.writes()));
+        out.push(snapshot(&cls, &repo));
     }
+    // size of the test file: at most 8 chunks (tiny fixed chunk sizes with compression level 22 work
+    // but take seconds per kilobyte)
+    let fsize = match repo.config().chunker() {
+        Chunker::FixedSize => match repo.config().chunk_size() {
+            0 => 20000,
+            cs => cs.saturating_mul(8).min(20000),
+        },
+        Chunker::Rabin => 20000,
+    };
+    drop(repo);
+    // accepted configurations work: backup through the repository as the user has it, then the
+    // cold part alone (as in disaster recovery / verification of the cold copy) passes check
+    let end = catch_unwind(AssertUnwindSafe(|| -> Result<(), String> {
+        let src = tempfile::tempdir().map_err(|e| e.to_string())?;
+        let mut rng = SplitMix(7);
+        std::fs::write(src.path().join("a.bin"), fill(&mut rng, fsize, false)).map_err(|e| e.to_string())?;
+        let repo = new_repo2(&cold, hb).open(&creds).map_err(|e| format!("open:{}", es(e)))?.to_indexed_ids().map_err(es)?;
+        let bo = BackupOptions::default().as_path(std::path::PathBuf::from("t"));
+        let paths = PathList::from_string(src.path().to_str().unwrap()).map_err(es)?;
+        let _ = repo.backup(&bo, &paths, SnapshotFile::default()).map_err(|e| format!("backup:{}", es(e)))?;
+        let c = new_repo2(&cold, None).open(&creds).map_err(|e| format!("open-cold:{}", es(e)))?.to_indexed().map_err(es)?;
+        c.check(CheckOptions::default().read_data(true)).map_err(es)?.is_ok().map_err(|e| format!("check-cold:{}", es(e)))?;
+        restore_and_compare(&c, "latest", src.path(), &["a.bin".to_string()]).map_err(|e| format!("restore-cold:{e}"))
+    }));
+    out.push(match end {
+        Err(_) => "end=panic".to_string(),
+        Ok(Err(e)) => format!("end={e}"),
+        Ok(Ok(())) => "end=ok".to_string(),
+    });
     out.join(" | ")
 }
 
